@@ -8,7 +8,7 @@
 #include "peek.h"
 
 static const char *ARM[] = { "setword", "setword", "setbyte", "set3", "hsfield", "hsfield", "hsfield", "flipbit", "flipbit", "trunc", "extend", "setlen", "setlen",
-                             "type", "ver", "epoch", "seq", "dup", "drop", "swapnext", "refrag", "refrag", "grow", "grow", "grow", "shrink" };
+                             "type", "ver", "epoch", "seq", "dup", "drop", "swapnext", "refrag", "refrag", "grow", "grow", "grow", "shrink", "fragmove" };
 static const char *INJ[] = { "garbage", "plain23", "replay", "reflect", "cross", "relabel", "alert", "hsmsg", "hsmsg", "ccs" };
 static const int PMTUS[] = { 1500, 1500, 900, 600, 400 };
 
@@ -16,7 +16,7 @@ static void add_fault(Rng &r, Plan &p, bool aead) {
     unsigned k = (unsigned) r.below(10);
     int dir = (int) r.below(2);
     if (k < 7) {
-        p.ops.push_back(Op("arm", dir, (int64_t) r.below(4096), (int64_t) r.below(1 << 16), 0, ARM[r.below(sizeof ARM / sizeof ARM[0])]));
+        p.ops.push_back(Op("arm", dir, (int64_t) r.below(4096), (int64_t) r.below(1 << 16), r.chance(1, 3) ? (int64_t) (1 + r.below(4)) : 0, ARM[r.below(sizeof ARM / sizeof ARM[0])]));
     } else if (k < 9 || !aead) {
         p.ops.push_back(Op("inject", dir, (int64_t) r.below(1000), (int64_t) r.below(50), (int64_t) (r.below(3) * 2), INJ[r.below(sizeof INJ / sizeof INJ[0])]));
     } else {
@@ -72,6 +72,24 @@ static std::vector<Plan> c08_fixed(int tier) {
                     p.ops.push_back(Op("arm", park & 1, field, (int64_t) ((val % 4) << 8 | (val * 3 % 10)), 0, "hsfield"));
                     p.ops.push_back(Op("hs"));
                     v.push_back(p);
+                }
+            }
+        }
+    }
+    // DTLS with real fragmentation (PMTU 400 / 600): every early record of each direction re-labelled as a fragment of a longer message
+    // that starts at or after the originally announced end
+    for (int ver = 3; ver < 5; ver++) {
+        for (int pm = 0; pm < 2; pm++) {
+            for (int park = 0; park <= (tier ? 14 : 10); park++) {
+                for (int dir = 0; dir < 2; dir++) {
+                    for (int var = 0; var < (tier ? 6 : 2); var++) {
+                        Plan p; p.seed = 87000 + (uint64_t) (ver * 10000 + pm * 2000 + park * 100 + dir * 10 + var);
+                        p.cfg["ver"] = ver; p.cfg["suite"] = TLS_RSA_WITH_AES_128_CBC_SHA; p.cfg["pmtu"] = pm ? 600 : 400;
+                        if (park) { p.ops.push_back(Op("steps", park)); }
+                        p.ops.push_back(Op("arm", dir, var * 2 + 1, var & 1, park % 4, "fragmove"));     // the (park%4+1)-th next record: later fragments of a flight too
+                        p.ops.push_back(Op("hs"));
+                        v.push_back(p);
+                    }
                 }
             }
         }
